@@ -208,6 +208,23 @@ def gen(seed, tier, extra=None):
                 for _ in range(rz.randint(1, 3)):
                     extra_ops.append(['iso', rz.choice(formatted) if formatted and rz.random() < 0.7 else rz.randrange(have)])
             ops[pos:pos] = extra_ops
+    # a calendar / time-series loop: datetimeNew called several times in a row from the same year and month with one
+    # component stepping (mostly upwards, far past its range), the way scripts build calendars — every call of the
+    # series is judged on its own, so anything the library remembers from one call to the next shows (appended at the
+    # end: the datetime indexes used by the ops above stay what they were)
+    rs = stream(seed, 'series')
+    if rs.random() < 0.3:
+        base = [rs.choice([year, rs.randint(100, 8999)]), rs.randint(1, 12), rs.choice([1, 15, 28, 29, 31, rs.randint(20, 60)])]
+        base += [rs.randint(0, 23), rs.randint(0, 59), rs.randint(0, 59), rs.randint(0, 999)][:rs.choice([0, 0, 1, 3, 4])]
+        ci = rs.choice([2, 2, 2, 1] + list(range(1, len(base))))
+        value = base[ci]
+        for _ in range(rs.randint(3, 7)):
+            comps = list(base)
+            comps[ci] = value
+            ops.append(['new', comps])
+            step = rs.choice([0, 1, 7, 28, 30, 31, 40, 59, 61, 365, rs.randint(1, 400)])
+            value += step if rs.random() < 0.8 else -step
+            value = max(-5000 if ci > 2 else (-10000 if ci == 2 else -30), min(5000 if ci > 2 else (10000 if ci == 2 else 40), value))
     return {'seed': seed, 'zone': zone, 'start_us': start_us, 'ops': ops, 'transitions': trans[:4]}
 
 
